@@ -85,3 +85,28 @@ pub fn inputs_of(g: &Graph) -> Vec<Node> {
 pub fn zero_inputs(g: &Graph) -> Result<Vec<Value>> {
     inputs_of(g).iter().map(|n| Ok(Value::zero_of_type(n.get_type()?))).collect()
 }
+
+/// One summary record per recorded stage: what a pipeline trace validator needs (spec/Pipeline.tla).
+pub fn stage_summary(name: &str, ctx: &Context) -> Result<Json> {
+    let graphs = ctx.get_graphs();
+    let main = ctx.get_main_graph()?;
+    let (mut customs, mut calls, mut prf, mut rnd) = (0u64, 0u64, vec![], 0u64);
+    for g in graphs.iter() {
+        for n in g.get_nodes() {
+            match n.get_operation() {
+                Operation::Custom(_) => customs += 1,
+                Operation::Call | Operation::Iterate => calls += 1,
+                Operation::PRF(iv, _) | Operation::PermutationFromPRF(iv, _) => prf.push(iv),
+                Operation::Random(_) | Operation::RandomPermutation(_) => rnd += 1,
+                _ => {}
+            }
+        }
+    }
+    let inputs: Vec<Json> = inputs_of(&main)
+        .iter()
+        .map(|n| Ok(json!({"name": n.get_name()?.unwrap_or_default(), "ty": type_json(&n.get_type()?)})))
+        .collect::<Result<_>>()?;
+    Ok(json!({"ev": name, "graphs": graphs.len(), "main_nodes": main.get_nodes().len(), "custom": customs, "calls": calls,
+              "prf": prf, "rnd": rnd, "inputs": inputs, "finalized": ctx.check_finalized().is_ok(),
+              "out_ty": type_json(&main.get_output_node()?.get_type()?)}))
+}
